@@ -23,9 +23,34 @@ SRC_AZURE = 'batch/batch/cloud/azure/resource_utils.py'
 SRC_ICC = 'batch/batch/inst_coll_config.py'
 COQ_PROPS = 'theories/Resources/Props_C12.v'
 READY = False
-META = dict(design_ref='§5.B C12', technique='', level_text='', level_note='', partial=False)
-TRUSTED = []
-ASSUMPTIONS = []
+META = dict(
+    design_ref='§5.B C12',
+    technique='Coq proofs about the resource-arithmetic helpers translated from the Python source (floats read as exact rationals, fail-closed '
+              'translator) and about a hand model of select_inst_coll; the float-vs-exact step validated exhaustively over the finite core-count '
+              'domain and at all packable / GiB boundaries; select_inst_coll tied by differential execution of the real class',
+    level_text='Machine-checked theorems (Coq 8.16, closed under the global context): adjust_cores_for_packability returns the LEAST packable core '
+               'count (250 mcpu * 2^k) covering the request, for all integers; what PoolConfig.convert_requests_to_resources (regenerated from '
+               'source, both clouds) grants is >= the requested cores, memory and storage and fits on one worker (cores <= worker cores, memory <= '
+               'worker cores x memory per core), for all requests and all pools with positive memory per core; a pool refuses only if the disk is '
+               'beyond the cloud maximum or NO packable grant covering cores and memory fits on its workers; for all pool lists, select_inst_coll '
+               '(hand model) places a request only in a collection matching cloud / preemptibility / label (and named worker type; job-private '
+               'collection of the same cloud with exactly the machine type\'s cores and memory), and rejects only if no matching collection could '
+               'satisfy it; the pool chosen without a named worker type is a cheapest candidate.',
+    level_note='Trusted: Coq kernel; translator harness/translate/c12_arith.py (floats -> exact rationals); the hand model of the three select_* '
+               'loops (tied by execution, not proved equal); request strings are taken as already parsed (parse_* is property C25). The check '
+               'targets the tree with fixes/C12.diff applied: pools with a non-power-of-two worker core count make select_inst_coll raise.',
+    partial=False,
+)
+TRUSTED = ['translator harness/translate/c12_arith.py (Python floats read as exact rationals: a/b, math.ceil, math.log2, 2**p, int())',
+           'hand model coq/theories/Resources/Model.v of select_inst_coll / select_pool_from_worker_type / select_cheapest_price_pool / '
+           'select_job_private, tied by differential execution of the real class',
+           'loader; ProductVersions and resource rates replaced by deterministic tables (they only influence which candidate is cheapest)']
+ASSUMPTIONS = ['float exactness: on the inputs that occur, float evaluation of the helpers equals their exact rational meaning — validated '
+               'EXHAUSTIVELY for adjust_cores_for_packability over [-5, 2^21] mcpu, and at every packable / GiB / cloud-maximum boundary for the '
+               'memory and storage helpers on every run; not proved for binary64',
+               'requests arrive parsed: cores in mcpu, memory and storage in bytes (non-negative); symbolic memory (lowmem/standard/highmem) has been '
+               'turned into a worker type by the front end',
+               'pool configurations are those the configuration form accepts (worker cores from possible_cores_from_worker_type, positive memory per core)']
 
 
 def _generate_defs(ctx):
@@ -135,6 +160,12 @@ def _get_tables(ctx):
     return ctx.c12_tables
 
 
+def _sweep(ctx):
+    if not hasattr(ctx, 'c12_sweep'):
+        ctx.c12_sweep = ctx.run_impl('c12_resources.py', {'mode': 'sweep', 'lo': -5, 'hi': 2 ** 21}, timeout=600)
+    return ctx.c12_sweep
+
+
 def _helper_calls(ctx, n_random):
     t = _get_tables(ctx)
     rng = ctx.rng
@@ -155,14 +186,14 @@ def _helper_calls(ctx, n_random):
     for cloud, wt, mpc in t['mpc']:
         B = mpc * MIB
         wcs = next(c for cl, w, c in t['pool_cores'] if cl == cloud and w == wt)
-        for k in range(0, 13):
+        for k in range(0, 11):
             c = 250 * 2 ** k
             calls.append(['mem_of', [cloud, wt, c]])
             m0 = c * B // 1000
             for dm in (-1, 0, 1):
                 for c0 in (250, c):
                     calls.append(['adjust_mem', [cloud, wt, c0, m0 + dm]])
-                for wc in (wcs[0], wcs[-1], 16):
+                for wc in (wcs[0], wcs[-1]):
                     calls.append(['convert', [cloud, wt, wc, rng.choice([250, 1000, c]), max(0, m0 + dm), rng.choice([0, 5 * GIB, 20 * GIB + 1])]])
         for _ in range(n_random // 6):
             c = rng.choice([250 * 2 ** rng.randint(0, 9), rng.randint(1, 70000)])
@@ -289,13 +320,13 @@ def correspond(ctx):
     dis = []
     # (a) exhaustive: adjust_cores_for_packability against its specification (= what C12_packability_least proves of the model)
     hi = 2 ** 21
-    sw = ctx.run_impl('c12_resources.py', {'mode': 'sweep', 'lo': -5, 'hi': hi}, timeout=600)
+    sw = _sweep(ctx)
     for c, want, got in sw['bad']:
         dis.append(Disagreement('least-packable-spec~adjust_cores_for_packability (exhaustive sweep)', [c], want, got))
     # (b) generated helpers vs the real ones
-    calls = _helper_calls(ctx, ctx.scale(400, 4000))
+    calls = _helper_calls(ctx, ctx.scale(300, 4000))
     impl = ctx.run_impl('c12_resources.py', {'mode': 'helpers', 'calls': calls}, timeout=600)['results']
-    model = coq_eval(ctx, SEL_HEADER, _helper_exprs(ctx, calls), shard=200)
+    model = coq_eval(ctx, SEL_HEADER, _helper_exprs(ctx, calls), shard=500)
     hist = {}
     for (name, a), m, i in zip(calls, model, impl):
         hist[name] = hist.get(name, 0) + 1
@@ -310,7 +341,7 @@ def correspond(ctx):
         for r, out in zip(sc['requests'], rs):
             exprs.append(_select_expr(ctx, sc, r, out['prices']))
             meta.append((sc, r, out))
-    sel = coq_eval(ctx, SEL_HEADER, exprs, shard=100)
+    sel = coq_eval(ctx, SEL_HEADER, exprs, shard=250)
     distinct = set()
     for (sc, r, out), m in zip(meta, sel):
         m = _norm_model(m)
@@ -421,10 +452,10 @@ def _check_helper(t, name, a, got):
 def oracle(ctx, budget):
     t = _get_tables(ctx)
     fails = []
-    sw = ctx.run_impl('c12_resources.py', {'mode': 'sweep', 'lo': -5, 'hi': 2 ** 21}, timeout=600)
+    sw = _sweep(ctx)
     for c, want, got in sw['bad']:
         fails.append(Failure('packability-not-least', f'adjust_cores_for_packability({c}) = {got}, least packable count is {want}', ['pack', [c]], want, got))
-    calls = _helper_calls(ctx, ctx.scale(400, 4000) * budget)
+    calls = _helper_calls(ctx, ctx.scale(200, 4000) * budget)
     impl = ctx.run_impl('c12_resources.py', {'mode': 'helpers', 'calls': calls}, timeout=600)['results']
     for (name, a), got in zip(calls, impl):
         r = _check_helper(t, name, a, got)
